@@ -222,10 +222,21 @@ def none_rule(ctx, R):
         bad = [b for b in none_analysis(ctx, f) if not any(re.search(fr, q) and b[2] == pr for fr, pr, _ in NONE_TABLE)]
         for fr, pr, reason in NONE_TABLE:
             if re.search(fr, q) and pr in pn:
-                # re-verify the reason: the reassignment under `if method:` still exists
-                asg = [x for x in ast.walk(f.node) if isinstance(x, ast.If) and isinstance(x.test, ast.Name) and any(isinstance(y, ast.Assign) and any(isinstance(t, ast.Name) and t.id == pr for tt in y.targets for t in ast.walk(tt)) for y in x.body)]
-                defs = [x for x in ast.walk(f.node) if isinstance(x, ast.Assign) and asg and any(isinstance(t, ast.Name) and t.id == asg[0].test.id for t in x.targets)]
-                okr = bool(asg) and bool(defs) and all("tickMethod" in ntext(d.value) for d in defs)
+                # re-verify the reason: the reassignment under `if method:` / `if (method := ...):` still exists and the tested
+                # value still comes from tickMethod()
+                def _tested(x):
+                    t = x.test
+                    if isinstance(t, ast.Name):
+                        return t.id, None
+                    if isinstance(t, ast.NamedExpr) and isinstance(t.target, ast.Name):
+                        return t.target.id, t.value
+                    return None, None
+
+                asg = [x for x in ast.walk(f.node) if isinstance(x, ast.If) and _tested(x)[0] and any(isinstance(y, ast.Assign) and any(isinstance(t, ast.Name) and t.id == pr for tt in y.targets for t in ast.walk(tt)) for y in x.body)]
+                mname = _tested(asg[0])[0] if asg else None
+                defs = [x.value for x in ast.walk(f.node) if isinstance(x, ast.Assign) and asg and any(isinstance(t, ast.Name) and t.id == mname for t in x.targets)]
+                defs += [x.value for x in ast.walk(f.node) if isinstance(x, ast.NamedExpr) and asg and isinstance(x.target, ast.Name) and x.target.id == mname]
+                okr = bool(asg) and bool(defs) and all("tickMethod" in ntext(d) for d in defs)
                 R.check(okr, "C11.NONE", "%s|%s (table)" % (q, pr), where(f), "discharged: " + reason, "the table reason for `%s` no longer holds in %s (%s)" % (pr, q, reason))
         n += len(pn)
         seen = set()
@@ -1240,7 +1251,9 @@ def degenerate(ctx, R):
     R.check(num_const(r) == 0, "C11.DEGENERATE", "precision of a zero step", where(g), "precision(0) == 0", "precision(0) is %s" % show(r))
     # drange with a zero step and start == stop yields nothing and terminates
     h = P.func("scale.drange")
-    ws = [n for n in h.node.body if isinstance(n, ast.While)]
+    from ..normalise import desugar_itertools
+
+    ws = [n for n in desugar_itertools(h.node.body)[0] if isinstance(n, ast.While)]
     ok = len(ws) == 1 and isinstance(ws[0].test, ast.Compare) and isinstance(ws[0].test.ops[0], ast.Lt)
     R.check(ok, "C11.DEGENERATE", "tick generator on (a, a, 0)", where(h), "strict `<` test: an empty range yields no tick and terminates", "the tick generator does not test `r < stop` strictly: the degenerate range (a, a, 0) would loop forever or divide")
 
